@@ -46,7 +46,7 @@ func check07() *simcore.Check {
 			Stub: []string{"disk: simdisk.SimKV"},
 		},
 		Perturbed: []string{"parallel committer goroutines"},
-		Runs:      map[string]int{"quick": 8000, "thorough": 300000},
+		Runs:      map[string]int{"quick": 12000, "thorough": 300000},
 		Gen:       Gen07f, Decode: Decode07, Run: Run07, Shrink: Shrink07,
 		ProbeNames: []string{"nodeset-deletion", "parallel-committer", "trie-emptied", "flushed-to-disk", "cold-restart", "path-disk-compared", "hash-disk-compared", "stacktrie-nodes-compared", "root-revisited"},
 	}
